@@ -95,7 +95,8 @@ def run(ctx):
     en = [a for a in m.assigns if a.lhs.canon().startswith('encoder.i')]
     ok = len(v) == 1 and v[0].rhs.canon() == 'self._inputs[*].valid' and not v[0].guard and \
         len(dt) == 1 and dt[0].rhs.canon() == 'self._inputs[*].data' and any(x.endswith('== encoder.o') and p for x, p in q.atoms(dt[0])) and \
-        len(rd) == 1 and rd[0].rhs.canon() == 'self.output.ready' and len(en) == 1 and en[0].rhs.canon() == 'self._inputs[*].valid'
+        len(rd) == 1 and rd[0].rhs.canon() == 'self.output.ready' and len(en) == 1 and \
+        en[0].rhs.canon() in ('self._inputs[*].valid', 'Cat(self._inputs[*].valid)')      # bit by bit or as one Cat of the valids
     ctx.ob('C20.mux-semantics', 'UTMIInterfaceMultiplexer', ok, None, 'valid ORed, data selected by the one-hot of valid, ready passed back')
     # (b)
     rs = ctx.ir('USBResetSequencer', 'usb2.reset')
